@@ -7,7 +7,7 @@ from sa.astx import call_name, names_read, src, statements
 from sa.domains import escaper_problems, replace_chain
 from sa.selftest import Mutant, Silent
 from sa.source import AnalysisError
-from sa.props._lib_i import COMPAT, BlockRaised, NotPure, Raised, eval_block, interp, local_const_env, module_env, peval, words
+from sa.props._lib_i import sect, COMPAT, BlockRaised, NotPure, Raised, eval_block, interp, local_const_env, module_env, peval, words
 
 PROPERTY = "C46"
 EP = "internet/endpoints.py"
@@ -45,135 +45,140 @@ def check(ctx):
     funcs = dict(COMPAT)
 
     # ---- writer as an ordered rewrite system -------------------------------------------------------------------------------
-    fq = ctx.func(EP, "quoteStringArgument")
-    q = base + "quoteStringArgument"
-    pairs = replace_chain(fq)
-    ctx.need(pairs, f"replace chain of {q}")
-    esc_candidates = {n[0] for o, n in pairs if isinstance(n, str) and len(n) == 2 and n[1] == o}
-    ctx.check(len(esc_candidates) == 1 and all(len(n) == 2 and n[1] == o for o, n in pairs), "quote/escape-form", q,
-              f"rewrites {pairs!r} are not all of the form unit -> escape + unit with one escape unit")
-    esc = next(iter(esc_candidates)) if len(esc_candidates) == 1 else "\\"
-    probs = escaper_problems(pairs, esc)
-    ctx.check(not probs, "quote/escaper-order", q, "; ".join(probs))
-    written = {o for o, _ in pairs}
+    with sect(ctx, 'writer as an ordered rewrite system'):
+        fq = ctx.func(EP, "quoteStringArgument")
+        q = base + "quoteStringArgument"
+        pairs = replace_chain(fq)
+        ctx.need(pairs, f"replace chain of {q}")
+        esc_candidates = {n[0] for o, n in pairs if isinstance(n, str) and len(n) == 2 and n[1] == o}
+        ctx.check(len(esc_candidates) == 1 and all(len(n) == 2 and n[1] == o for o, n in pairs), "quote/escape-form", q,
+                  f"rewrites {pairs!r} are not all of the form unit -> escape + unit with one escape unit")
+        esc = next(iter(esc_candidates)) if len(esc_candidates) == 1 else "\\"
+        probs = escaper_problems(pairs, esc)
+        ctx.check(not probs, "quote/escaper-order", q, "; ".join(probs))
+        written = {o for o, _ in pairs}
 
     # ---- reader transition table --------------------------------------------------------------------------------------------------
-    ft = ctx.func(EP, "_tokenize")
-    q = base + "_tokenize"
-    loops = [st for st in ft.body if isinstance(st, ast.For)]
-    ctx.need(len(loops) == 1 and isinstance(loops[0].target, ast.Name), f"scanning loop of {q}")
-    loop = loops[0]
-    param = ft.args.args[0].arg
-    pre = ft.body[:ft.body.index(loop)]
-    penv = dict(env0)
-    penv[param] = "x"
-    eval_block([st for st in pre if not (isinstance(st, ast.Expr) and isinstance(st.value, ast.Constant))], penv, funcs=funcs)
-    # the iterator variable (advanced by the escape branch) and the state variables re-bound inside the loop
-    it_names = [n for n, v in penv.items() if n not in env0 and n != param and hasattr(v, "__next__")]
-    ctx.need(len(it_names) == 1 and isinstance(loop.iter, ast.Name) and loop.iter.id == it_names[0], f"explicit iterator driving the loop of {q}")
-    itn = it_names[0]
-    rebound = {t.id for st in ast.walk(loop) if isinstance(st, (ast.Assign, ast.AugAssign)) for t in (st.targets if isinstance(st, ast.Assign) else [st.target]) if isinstance(t, ast.Name)}
-    str_state = [n for n in rebound if isinstance(penv.get(n), str)]
-    ctx.need(len(str_state) == 2, f"token accumulator and separator-set state of {q}")
-    cur = next(n for n in str_state if penv[n] == "")
-    ops = next(n for n in str_state if n != cur)
-    tables = [v for n, v in penv.items() if n not in env0 and isinstance(v, dict)]
-    ctx.need(len(tables) == 1, f"separator transition table of {q}")
-    states = sorted({penv[ops]} | set(tables[0].values()))
-    kinds = (env0["_STRING"], env0["_OP"])
-    specials = set()
-    n_cells = 0
-    for state in states:
-        for unit in ALPHABET + ("b", " "):
-            for nxt in ALPHABET:
-                e = dict(penv)
-                e.update({loop.target.id: unit, cur: "tok", ops: state, itn: iter([nxt, "Z"])})
-                try:
-                    r = eval_block(loop.body, e, funcs=funcs)
-                except BlockRaised as ex:
-                    raise AnalysisError(f"{q}: loop body not evaluable for unit {unit!r}: {ex}")
-                n_cells += 1
-                consumed_next = next(e[itn]) == "Z"
-                got = (list(r.out), e[cur], e[ops], consumed_next)
-                if unit in state:
-                    want = ([(kinds[0], "tok"), (kinds[1], unit)], "", tables[0].get(unit), False)
-                    cls = "separator"
-                elif unit == esc:
-                    want = ([], "tok" + nxt, state, True)
-                    cls = "escape"
+    with sect(ctx, 'reader transition table'):
+        ft = ctx.func(EP, "_tokenize")
+        q = base + "_tokenize"
+        loops = [st for st in ft.body if isinstance(st, ast.For)]
+        ctx.need(len(loops) == 1 and isinstance(loops[0].target, ast.Name), f"scanning loop of {q}")
+        loop = loops[0]
+        param = ft.args.args[0].arg
+        pre = ft.body[:ft.body.index(loop)]
+        penv = dict(env0)
+        penv[param] = "x"
+        eval_block([st for st in pre if not (isinstance(st, ast.Expr) and isinstance(st.value, ast.Constant))], penv, funcs=funcs)
+        # the iterator variable (advanced by the escape branch) and the state variables re-bound inside the loop
+        it_names = [n for n, v in penv.items() if n not in env0 and n != param and hasattr(v, "__next__")]
+        ctx.need(len(it_names) == 1 and isinstance(loop.iter, ast.Name) and loop.iter.id == it_names[0], f"explicit iterator driving the loop of {q}")
+        itn = it_names[0]
+        rebound = {t.id for st in ast.walk(loop) if isinstance(st, (ast.Assign, ast.AugAssign)) for t in (st.targets if isinstance(st, ast.Assign) else [st.target]) if isinstance(t, ast.Name)}
+        str_state = [n for n in rebound if isinstance(penv.get(n), str)]
+        ctx.need(len(str_state) == 2, f"token accumulator and separator-set state of {q}")
+        cur = next(n for n in str_state if penv[n] == "")
+        ops = next(n for n in str_state if n != cur)
+        tables = [v for n, v in penv.items() if n not in env0 and isinstance(v, dict)]
+        ctx.need(len(tables) == 1, f"separator transition table of {q}")
+        states = sorted({penv[ops]} | set(tables[0].values()))
+        kinds = (env0["_STRING"], env0["_OP"])
+        specials = set()
+        n_cells = 0
+        for state in states:
+            for unit in ALPHABET + ("b", " "):
+                for nxt in ALPHABET:
+                    e = dict(penv)
+                    e.update({loop.target.id: unit, cur: "tok", ops: state, itn: iter([nxt, "Z"])})
+                    try:
+                        r = eval_block(loop.body, e, funcs=funcs)
+                    except BlockRaised as ex:
+                        raise AnalysisError(f"{q}: loop body not evaluable for unit {unit!r}: {ex}")
+                    n_cells += 1
+                    consumed_next = next(e[itn]) == "Z"
+                    got = (list(r.out), e[cur], e[ops], consumed_next)
+                    if unit in state:
+                        want = ([(kinds[0], "tok"), (kinds[1], unit)], "", tables[0].get(unit), False)
+                        cls = "separator"
+                    elif unit == esc:
+                        want = ([], "tok" + nxt, state, True)
+                        cls = "escape"
+                    else:
+                        want = ([], "tok" + unit, state, False)
+                        cls = "literal"
+                    if got != want:
+                        ctx.violation("tokenize/transition", f"{q} | {cls} unit in state {state!r}",
+                                      f"unit {unit!r} (next {nxt!r}) with separators {state!r}: yields/accumulator/next-separators/consumed-next = {got!r}, required {want!r}")
+                        break
+                    if got[0] or consumed_next:
+                        specials.add(unit)
                 else:
-                    want = ([], "tok" + unit, state, False)
-                    cls = "literal"
-                if got != want:
-                    ctx.violation("tokenize/transition", f"{q} | {cls} unit in state {state!r}",
-                                  f"unit {unit!r} (next {nxt!r}) with separators {state!r}: yields/accumulator/next-separators/consumed-next = {got!r}, required {want!r}")
-                    break
-                if got[0] or consumed_next:
-                    specials.add(unit)
+                    continue
+                break
             else:
                 continue
             break
         else:
-            continue
-        break
-    else:
-        ctx.ok("tokenize/transition", q, f"{n_cells} (state, unit, next unit) cells")
-    post = ft.body[ft.body.index(loop) + 1:]
-    e = dict(penv)
-    e[cur] = "tail"
-    r = eval_block(post, e, funcs=funcs)
-    ctx.check(list(r.out) == [(kinds[0], "tail")], "tokenize/transition", q + " | end of input", f"at end of input the pending token is emitted as {list(r.out)!r}")
+            ctx.ok("tokenize/transition", q, f"{n_cells} (state, unit, next unit) cells")
+        post = ft.body[ft.body.index(loop) + 1:]
+        e = dict(penv)
+        e[cur] = "tail"
+        r = eval_block(post, e, funcs=funcs)
+        ctx.check(list(r.out) == [(kinds[0], "tail")], "tokenize/transition", q + " | end of input", f"at end of input the pending token is emitted as {list(r.out)!r}")
     # ---- K10: every unit the reader treats specially is escaped by the writer ---------------------------------------------------------
-    for u in sorted(specials | {esc}):
-        ctx.check(u in written, "quote/covers-reader-specials", f"{base}quoteStringArgument | reader-special {u!r}",
-                  f"_tokenize gives {u!r} a special meaning ({'escape' if u == esc else 'argument / keyword separator'}) but quoteStringArgument does not escape it: "
-                  + ("a quoted positional argument containing '=' is parsed as a keyword" if u == "=" else "the quoted text is split or altered when parsed"))
-    if not any(o["rule"] == "tokenize/transition" and o["verdict"] != "holds" for o in ctx.obligations):
-        ctx.floor("quote/covers-reader-specials", len(specials), 2)
+    with sect(ctx, 'K10: every unit the reader treats specially is escaped by the writer'):
+        for u in sorted(specials | {esc}):
+            ctx.check(u in written, "quote/covers-reader-specials", f"{base}quoteStringArgument | reader-special {u!r}",
+                      f"_tokenize gives {u!r} a special meaning ({'escape' if u == esc else 'argument / keyword separator'}) but quoteStringArgument does not escape it: "
+                      + ("a quoted positional argument containing '=' is parsed as a keyword" if u == "=" else "the quoted text is split or altered when parsed"))
+        if not any(o["rule"] == "tokenize/transition" and o["verdict"] != "holds" for o in ctx.obligations):
+            ctx.floor("quote/covers-reader-specials", len(specials), 2)
 
     # ---- bounded round trip through _parse --------------------------------------------------------------------------------------------------
-    fp = ctx.func(EP, "_parse")
-    tokenize = interp(ft, funcs, env0)
-    f2 = dict(funcs)
-    f2["_tokenize"] = tokenize
-    parse = interp(fp, f2, env0)
-    quote = interp(fq, funcs, env0)
-    shapes = {
-        "first positional argument": (lambda qd: "tcp:" + qd + ":80:k=v", lambda t: (["tcp", t, "80"], {"k": "v"})),
-        "last positional argument": (lambda qd: "tcp:80:" + qd, lambda t: (["tcp", "80", t], {})),
-        "keyword argument": (lambda qd: "tcp:80:k=" + qd + ":j=1", lambda t: (["tcp", "80"], {"k": t, "j": "1"})),
-        "last keyword argument": (lambda qd: "unix:k=" + qd, lambda t: (["unix"], {"k": t})),
-    }
-    texts = ["".join(w) for w in words(ALPHABET, 3)] + [" a ", "\t", " ", "\u00e9:", "a\\:=b c", "k=v:w", "\n"]
-    for shape, (build, want) in shapes.items():
-        bad = None
-        for t in texts:
-            qd, err = _call(quote, t)
-            if err:
-                raise AnalysisError(f"quoteStringArgument({t!r}) not evaluable: {err}")
-            got, err = _call(parse, build(qd))
-            if err is not None:
-                bad = (t, build(qd), err)
-                break
-            got = (list(got[0]), dict(got[1]))
-            if got != want(t):
-                bad = (t, build(qd), got)
-                break
-        ctx.check(bad is None, "roundtrip/parse-of-quoted", f"{base}quoteStringArgument ~ _parse | {shape}",
-                  bad and f"text {bad[0]!r} quoted into {bad[1]!r} parses to {bad[2]!r}; required {want(bad[0])!r}", detail=f"{len(texts)} texts over {ALPHABET!r}, length <= 3")
+    with sect(ctx, 'bounded round trip through _parse'):
+        fp = ctx.func(EP, "_parse")
+        tokenize = interp(ft, funcs, env0)
+        f2 = dict(funcs)
+        f2["_tokenize"] = tokenize
+        parse = interp(fp, f2, env0)
+        quote = interp(fq, funcs, env0)
+        shapes = {
+            "first positional argument": (lambda qd: "tcp:" + qd + ":80:k=v", lambda t: (["tcp", t, "80"], {"k": "v"})),
+            "last positional argument": (lambda qd: "tcp:80:" + qd, lambda t: (["tcp", "80", t], {})),
+            "keyword argument": (lambda qd: "tcp:80:k=" + qd + ":j=1", lambda t: (["tcp", "80"], {"k": t, "j": "1"})),
+            "last keyword argument": (lambda qd: "unix:k=" + qd, lambda t: (["unix"], {"k": t})),
+        }
+        texts = ["".join(w) for w in words(ALPHABET, 3)] + [" a ", "\t", " ", "\u00e9:", "a\\:=b c", "k=v:w", "\n"]
+        for shape, (build, want) in shapes.items():
+            bad = None
+            for t in texts:
+                qd, err = _call(quote, t)
+                if err:
+                    raise AnalysisError(f"quoteStringArgument({t!r}) not evaluable: {err}")
+                got, err = _call(parse, build(qd))
+                if err is not None:
+                    bad = (t, build(qd), err)
+                    break
+                got = (list(got[0]), dict(got[1]))
+                if got != want(t):
+                    bad = (t, build(qd), got)
+                    break
+            ctx.check(bad is None, "roundtrip/parse-of-quoted", f"{base}quoteStringArgument ~ _parse | {shape}",
+                      bad and f"text {bad[0]!r} quoted into {bad[1]!r} parses to {bad[2]!r}; required {want(bad[0])!r}", detail=f"{len(texts)} texts over {ALPHABET!r}, length <= 3")
 
     # ---- both entry points parse the unmodified description ---------------------------------------------------------------------------------------
-    for fname, via in (("_parseServer", "_parse"), ("serverFromString", "_parseServer"), ("clientFromString", "_parse")):
-        f = ctx.func(EP, fname)
-        g = ctx.cfg(f)
-        dparam = next((a.arg for a in f.args.args if a.arg == "description"), None)
-        ctx.need(dparam, f"description parameter of {fname}")
-        calls = g.find(lambda x: isinstance(x, ast.Call) and call_name(x) == via and x.args and src(x.args[0]) == dparam)
-        rebinds = [st for st in statements(f) if isinstance(st, (ast.Assign, ast.AugAssign)) and any(isinstance(t, ast.Name) and t.id == dparam
-                   for t in (st.targets if isinstance(st, ast.Assign) else [st.target]))]
-        wit = g.must_pass([g.entry], calls, exc=False) if calls else None
-        ctx.check(bool(calls) and wit is None and not rebinds, "entry/description-parsed-verbatim", base + fname,
-                  f"{fname} does not hand its description unchanged to {via} on every path (pre-processing breaks the quoting contract)", witness=g.describe(wit))
+    with sect(ctx, 'both entry points parse the unmodified description'):
+        for fname, via in (("_parseServer", "_parse"), ("serverFromString", "_parseServer"), ("clientFromString", "_parse")):
+            f = ctx.func(EP, fname)
+            g = ctx.cfg(f)
+            dparam = next((a.arg for a in f.args.args if a.arg == "description"), None)
+            ctx.need(dparam, f"description parameter of {fname}")
+            calls = g.find(lambda x: isinstance(x, ast.Call) and call_name(x) == via and x.args and src(x.args[0]) == dparam)
+            rebinds = [st for st in statements(f) if isinstance(st, (ast.Assign, ast.AugAssign)) and any(isinstance(t, ast.Name) and t.id == dparam
+                       for t in (st.targets if isinstance(st, ast.Assign) else [st.target]))]
+            wit = g.must_pass([g.entry], calls, exc=False) if calls else None
+            ctx.check(bool(calls) and wit is None and not rebinds, "entry/description-parsed-verbatim", base + fname,
+                      f"{fname} does not hand its description unchanged to {via} on every path (pre-processing breaks the quoting contract)", witness=g.describe(wit))
 
 
 _Q = '    backslash, colon, equals = "\\\\:="\n    for c in backslash, colon, equals:\n        argument = argument.replace(c, backslash + c)\n'
